@@ -39,7 +39,7 @@ def _apalache(ctx):
 
 def run(ctx):
     # (a) exhaustive small-word-width model
-    runs = ctx.pick([(6, 9), (8, 9), (12, 4)], [(6, 9), (8, 9), (10, 9), (12, 9), (16, 5)])
+    runs = ctx.pick([(6, 9), (8, 4), (12, 4)], [(6, 9), (8, 9), (10, 9), (12, 9), (16, 5)])
     for w, maxlen in runs:
         ctx.tlc_mc("data", "IntCodecMC", "IntCodecMC.cfg", consts={"W": w, "MAXLEN": maxlen}, workers=8, timeout=1500)
     # (c) boundary vectors at the real width
@@ -47,9 +47,10 @@ def run(ctx):
                           workers=8, timeout=900)
     if not path:
         raise Infra("IntCodecGen wrote no vectors")
-    recs = ctx.go_test(".", ["c30_"], "^TestVerifC30Vectors$", infile=path, timeout=600)
-    ctx.absorb(recs)
-    recs = ctx.go_test(".", ["c30_"], "^TestVerifC30RoundTrip$", timeout=900)
+    # one compilation, both tests (vectors + round trips)
+    recs = ctx.go_test(".", ["c30_"], "^TestVerifC30(Vectors|RoundTrip)$", infile=path, timeout=1200)
+    if sum(1 for r in recs if r.get("t") == "done") != 2:
+        raise Infra("C30 harness: expected both tests to complete")
     ctx.absorb(recs)
     # (b) optional
     if not ctx.quick:
